@@ -17,7 +17,7 @@ SPEC = dict(
             "(forces_sum_zero, moments_sum_zero, power_eq_minus_tension_lengthdot); the harness bounds the force / moment / power "
             "predicates by 3*nSegments*getSmoothness via these identities (the step defect <= sqrt2*path error is not formalised).  "
             "(ii) predicate-only: length = sum of segments; arcs >= chords; length rate = dL/dt for CURVED segments (central "
-            "difference along qdot=N u, 2e-4 relative, skipped when the contact set changes; a missing term below 1e-4 relative is not "
+            "difference along qdot=N u, 1e-3 relative, skipped when the contact set changes; a missing term below 1e-4 relative is not "
             "detectable); curve points on the surface (7 samples, closed-form implicit functions); straight segments outside "
             "obstacles (closed-form line/quadric test for sphere, cylinder, ellipsoid; 23 samples for the torus); tangents aligned "
             "with their segments; CableSpring power and resultants; slack cable applies nothing.  Floors require >= 80 % of the "
